@@ -8,9 +8,10 @@ CRATE = "e_treap"
 DRIVER = "drv_treap"
 DRIVER_MODULE = "Driver.Treap"
 PROPS = "RlibModel.Props.C03"
-PROFILES = ["release"]
+PROFILES = ["release", "debug"]   # debug: the same generators in smaller numbers against the debug build of rlib (cfg(debug_assertions), debug_assert!)
 SHRINK_SEP = ";"
-RULE = ("cases are histories `C03 <item> <stream> ; op ; op …` on a vector of live treaps (ops: new, item, merge, splitat, splitby, insert, "
+RULE = ("Wave 3: BOTH BUILD PROFILES — the same generators in smaller numbers also run against the debug build of rlib (cfg(debug_assertions), debug_assert!). "
+        "cases are histories `C03 <item> <stream> ; op ; op …` on a vector of live treaps (ops: new, item, merge, splitat, splitby, insert, "
         "remove, first, last, collect, size, agg, tag, drop, and — round 3 — the operations that RE-USE what the API returned: `move` = "
         "remove_at then insert_at of the returned item (inside one treap or into another), `take` = Treap::from_item(remove_at(k)), `dup` = "
         "from_item(clone of the only element through first/last/collect), and `collect2` = TreapNode::collect_into of two roots into ONE "
@@ -104,4 +105,4 @@ def extract(repo):
 
 
 def harness_args(params, profile):
-    return ["--focus", "C03"]
+    return ["--focus", "C03", "--profile", profile]
